@@ -107,13 +107,16 @@ static void runCase(const Case &cs, std::ostream &out) {
 		for (size_t j = 0; j < cs.roots.size(); j++) {
 			const auto &a = conj[i], &b = conj[j];
 			bool eq = a.isEqualTo(b), ng = a.isNegationOf(b), sb = a.isSubsetOf(b), cb = a.cannotBothBeTrue(b), cb2 = a.cannotBothBeTrue(b, true);
-			out << "Q " << cs.id << " " << cs.roots[i] << " " << cs.roots[j] << " " << eq << ng << sb << cb << cb2 << "\n";
+			// equality as a std::map key: the defaulted operator== and the equivalence induced by operator<=> (Retiming.cpp cache)
+			bool opeq = (a == b), keyeq = !(a < b) && !(b < a);
+			out << "Q " << cs.id << " " << cs.roots[i] << " " << cs.roots[j] << " " << eq << ng << sb << cb << cb2 << opeq << keyeq << "\n";
 			if (!doSem) continue;
 			NodePort ra = drv(cs.roots[i]), rb = drv(cs.roots[j]);
 			auto rep = [&](const char *what, std::pair<bool, std::pair<uint64_t,int>> r) {
 				if (!r.first) out << "SEMFAIL " << cs.id << " " << what << " roots " << cs.roots[i] << " " << cs.roots[j] << " assign " << r.second.first << " unconnected " << r.second.second << "\n";
 			};
 			if (eq) rep("isEqualTo", forAll([&]{ return ev.val(ra) == ev.val(rb); }));
+			if ((opeq || keyeq) && !a.isUndefined()) rep("operator==", forAll([&]{ return ev.val(ra) == ev.val(rb); }));
 			if (ng) rep("isNegationOf", forAll([&]{ return ev.val(ra) != ev.val(rb); }));
 			if (sb) rep("isSubsetOf", forAll([&]{ return !ev.val(rb) || ev.val(ra); }));
 			if (cb || cb2) rep("cannotBothBeTrue", forAll([&]{ return !(ev.val(ra) && ev.val(rb)); }));
